@@ -194,6 +194,41 @@ def restore (s : State) : State :=
              full := false, flag := true, convAdded := [] }
   else { s with convAdded := [] }
 
+/-! ### `EdgeAssemblyChanger.scaleParamsRelatedToSymmetry` (compared with the real code; outside `Op`/`run`) -/
+
+/-- the first 120° image of a cell (the partner of a 0°-line cell on the 120° line) -/
+def imageOf (c : Cell) : Cell := (-c.1 - c.2, c.1)
+
+/-- test stimulus "what a flux solver on the model with edge assemblies hands back": both halves of every cut
+assembly (0°-line assembly whose partner is modelled) carry half of the whole hexagon's stored values (the 0°-line
+assembly's current ones). Assigning parameters sets the definitions' flag. -/
+def solveHalves (s : State) : State :=
+  let cut := fun (x : Assem) => on0 x.cell && occupied s.kids (imageOf x.cell)
+  { s with
+    kids := s.kids.map (fun x =>
+      if cut x then scalePar (1 / 2) x
+      else if on120 x.cell then
+        match s.kids.find? (fun l => cut l && decide (imageOf l.cell = x.cell)) with
+        | some l => { x with par := l.par.map (fun v => v * (1 / 2)) }
+        | none => x
+      else x),
+    flag := s.flag || s.kids.any cut }
+
+def leJ (a b : Assem) : Bool := decide (a.cell.2 ≤ b.cell.2)
+
+/-- `scaleParamsRelatedToSymmetry(core)`: the assemblies on the 0° line and on the 120° line, each sorted by ring,
+are zipped; every flagged volume-integrated parameter of the 0°-line member becomes its own value plus its partner's
+(nothing is flagged right after `addEdgeAssemblies` cleared the flags: no-op). -/
+def scaleSym (s : State) : State :=
+  if !s.flag then s else
+  let lower := (s.kids.filter (fun a => on0 a.cell)).mergeSort leI
+  let upper := (s.kids.filter (fun a => on120 a.cell)).mergeSort leJ
+  let pairs := lower.zip upper
+  { s with kids := s.kids.map (fun x =>
+      match pairs.find? (fun p => p.1.id = x.id) with
+      | some p => { x with par := List.zipWith (· + ·) x.par p.2.par }
+      | none => x) }
+
 inductive Op | convert | restore | addEdge | removeEdge
 deriving DecidableEq, Repr
 
